@@ -25,6 +25,7 @@ class Preemptor:
         self.count = collections.Counter()
         self.points = []
         self.point_time = {}
+        self.point_ev = {}
         self.cur = None
         self.active = False
         orig_run_job = sim.run_job
@@ -56,6 +57,7 @@ class Preemptor:
             p = key + (self.count[key],)
             self.points.append(p)
             self.point_time[p] = self.sim.now_us - vt.EPOCH_US       # same clock as the events' t
+            self.point_ev[p] = len(self.sim.trace)                   # position in the trace
             if p in self.targets:
                 self._hold(p)
         return self._local
